@@ -19,7 +19,7 @@ fi
 : > "$OUT"
 for c in $CHECKS; do
   S=$(date +%s)
-  VERIF_REPO="$W" /verif/bin/vcheck $c --tier quick > "$OUT.$c" 2>&1; rc=$?
+  VERIF_REPO="$W" ${VCHECK_BIN:-/verif/bin/vcheck} $c --tier quick > "$OUT.$c" 2>&1; rc=$?
   echo "$c rc=$rc $(( $(date +%s) - S ))s" >> "$OUT"
   if [ $rc -eq 0 ]; then rm -f "$OUT.$c"; fi
 done
